@@ -41,6 +41,10 @@ ATTR_SWAP = {"append": "appendleft", "appendleft": "append", "pop": "popleft", "
              "wait": "clear", "add_handler": "remove_handler_by_key", "remove_handler": "add_handler"}
 
 
+LOGGISH = {"debug_log", "info_log", "warning_log", "error_log", "debug", "info", "warning", "error", "log", "format", "raise_config_error",
+           "join", "split", "startswith", "endswith", "replace", "strip", "encode", "decode"}
+
+
 class Site:
     __slots__ = ("kind", "start", "end", "new", "line", "desc")
 
@@ -197,6 +201,13 @@ def sites_in(func_node, btext, offs):
                     alts = [1, 100]
                 for a in alts:
                     add("CONST", n, repr(a), "%r -> %r" % (v, a))
+        if isinstance(n, ast.Call) and isinstance(n.func, ast.Attribute) and n.func.attr not in LOGGISH:
+            # STR: a string literal handed to a call as a *name* (delay name, event name, handler / dict key): names must agree
+            # between the site that creates and the site that looks up
+            for a in list(n.args) + [k.value for k in n.keywords]:
+                if isinstance(a, ast.Constant) and isinstance(a.value, str) and 0 < len(a.value) <= 40 and " " not in a.value and "%" not in a.value \
+                        and "{" not in a.value:
+                    add("STR", a, repr(a.value + "_x"), "name %r -> %r in `%s`" % (a.value, a.value + "_x", _u(n)[:50]))
         if isinstance(n, ast.Call):
             f = n.func
             if isinstance(f, ast.Attribute) and f.attr in ATTR_SWAP:
